@@ -45,6 +45,12 @@ func h5Main(env *Env, c *H5Cfg, sh *h5Shared) {
 		}
 	}
 	wrapped := func(t time.Time) int {
+		if k := len(sh.outer); k >= 1 && len(c.EvalSleepNs) > 0 {
+			// a slow evaluation (a blocked callee): the tick is handled late, later ticks are overdue
+			if d := c.EvalSleepNs[k%len(c.EvalSleepNs)]; d > 0 {
+				time.Sleep(time.Duration(d))
+			}
+		}
 		v := rates.Rate(t)
 		sh.logOuter(env, t, v)
 		if twin != nil {
@@ -86,7 +92,7 @@ func h5Main(env *Env, c *H5Cfg, sh *h5Shared) {
 	logger := slog.New(rec.Handler())
 	m := metrics.NewInstance(prometheus.NewRegistry(), false, nil)
 	body := func(t *f1t.T) {
-		d := sh.beginBody(c)
+		d := sh.beginBody(c, env.Sim.Now())
 		if d > 0 {
 			time.Sleep(time.Duration(d))
 		}
